@@ -372,3 +372,162 @@ pub fn workers_exit(rounds: u64) -> LiveResult {
     }
     LiveResult { scenario: "workers_exit", rounds, violations, detail }
 }
+
+// ---- scenarios that also exercise AsyncCache ------------------------------------------------------
+
+use stretto::{AsyncCache, AsyncCacheBuilder};
+
+type LACache = AsyncCache<u64, u64, SplitKeyBuilder, SlowCoster, TableValidator, RecCallback, SlowWorkerHasher>;
+
+fn build_async<SP, R>(max_cost: i64, buf: usize, hasher_us: u64, spawner: SP) -> LACache
+where
+    SP: Fn(futures::future::BoxFuture<'static, ()>) -> R + Send + Sync + 'static + Copy,
+{
+    AsyncCacheBuilder::<u64, u64>::new(256, max_cost)
+        .set_key_builder(SplitKeyBuilder)
+        .set_coster(SlowCoster { micros: 0 })
+        .set_update_validator(TableValidator(0))
+        .set_callback(RecCallback::default())
+        .set_hasher(SlowWorkerHasher { micros: hasher_us })
+        .set_buffer_size(buf)
+        .set_buffer_items(64)
+        .set_ignore_internal_cost(true)
+        .set_cleanup_duration(Duration::from_secs(3600))
+        .finalize(spawner)
+        .expect("async cache")
+}
+
+/// C10 for AsyncCache on a multi-threaded executor: insert of a fresh key into a cache with ample
+/// room returned true, `wait().await` returned Ok, then the key must be found. The processor (a task
+/// on another worker thread) is slowed down so that an item is in flight for a noticeable time.
+pub fn async_barrier(rounds: u64) -> LiveResult {
+    mark_client();
+    let rt = tokio::runtime::Builder::new_multi_thread().worker_threads(4).build().expect("tokio");
+    let (done, violations, detail) = rt.block_on(async move {
+        let c = build_async(1_000_000, 64, 150, tokio::spawn);
+        let mut violations = 0u64;
+        let mut detail = String::new();
+        let mut done = 0u64;
+        for r in 0..rounds {
+            let key = mk_key(r + 1, 0);
+            let v = r + 1000;
+            if !c.insert(key, v, 1).await {
+                continue;
+            }
+            done += 1;
+            if r % 2 == 0 {
+                std::thread::sleep(Duration::from_micros(60));
+            }
+            if c.wait().await.is_err() {
+                continue;
+            }
+            let got = c.get(&key).await.map(|x| *x.value());
+            if got != Some(v) {
+                violations += 1;
+                if detail.is_empty() {
+                    detail = format!("AsyncCache on tokio multi-thread, round {}: insert(key {}) returned true, wait().await returned Ok, get = {:?}", r, r + 1, got);
+                }
+            }
+        }
+        let _ = c.close().await;
+        (done, violations, detail)
+    });
+    LiveResult { scenario: "async_barrier", rounds: done, violations, detail }
+}
+
+/// C02 / C06 / C10: `remove(k)` issued while the insert of `k` is still buffered and the buffer is
+/// full. Whatever the timing, once `remove` and a following `wait()` have returned the key must be
+/// gone, and (C06) nothing may be charged for it. The processor is stalled on an earlier item so that
+/// the buffer really is full when `remove` is called. Run against `Cache` and against `AsyncCache`.
+pub fn remove_full(rounds: u64, asynchronous: bool) -> LiveResult {
+    mark_client();
+    let name: &'static str = if asynchronous { "async_remove_full" } else { "remove_full" };
+    let mut violations = 0u64;
+    let mut detail = String::new();
+    let mut done = 0u64;
+    if asynchronous {
+        let rt = tokio::runtime::Builder::new_multi_thread().worker_threads(4).build().expect("tokio");
+        let (d, v, det) = rt.block_on(async move {
+            let mut violations = 0u64;
+            let mut detail = String::new();
+            let mut done = 0u64;
+            for r in 0..rounds {
+                let c = build_async(1_000_000, 2, 2500, tokio::spawn);
+                let base = 10 * (r + 1);
+                let k = mk_key(base + 1, 0);
+                // the processor takes the first item at once and stalls on it
+                let _ = c.insert(mk_key(base, 0), 1, 1).await;
+                std::thread::sleep(Duration::from_micros(300));
+                let a = c.insert(k, 70, 1).await;
+                let _ = c.insert(mk_key(base + 2, 0), 2, 1).await;
+                c.remove(&k).await;
+                let mut waited = false;
+                for _ in 0..200 {
+                    if c.wait().await.is_ok() {
+                        waited = true;
+                        break;
+                    }
+                    std::thread::sleep(Duration::from_millis(1));
+                }
+                if !waited {
+                    continue;
+                }
+                done += 1;
+                let got = c.get(&k).await.map(|x| *x.value());
+                let snap = stretto::verif::async_cache_snapshot(&c, |v| *v);
+                let charged = snap.policy.charges.iter().any(|(kk, _)| *kk == base + 1);
+                if got.is_some() || charged {
+                    violations += 1;
+                    if detail.is_empty() {
+                        detail = format!(
+                            "AsyncCache, round {}: insert(k)={} while the processor was busy, buffer (capacity 2) filled, remove(k) and wait() returned: get(k) = {:?}, k still charged = {}",
+                            r, a, got, charged
+                        );
+                    }
+                }
+                let _ = c.close().await;
+            }
+            (done, violations, detail)
+        });
+        done = d;
+        violations = v;
+        detail = det;
+    } else {
+        for r in 0..rounds {
+            let c = build(1_000_000, 2, 2500, 0);
+            let base = 10 * (r + 1);
+            let k = mk_key(base + 1, 0);
+            let _ = c.insert(mk_key(base, 0), 1, 1);
+            std::thread::sleep(Duration::from_micros(300));
+            let a = c.insert(k, 70, 1);
+            let _ = c.insert(mk_key(base + 2, 0), 2, 1);
+            c.remove(&k);
+            let mut waited = false;
+            for _ in 0..200 {
+                if c.wait().is_ok() {
+                    waited = true;
+                    break;
+                }
+                std::thread::sleep(Duration::from_millis(1));
+            }
+            if !waited {
+                continue;
+            }
+            done += 1;
+            let got = c.get(&k).map(|x| *x.value());
+            let snap = stretto::verif::cache_snapshot(&c, |v| *v);
+            let charged = snap.policy.charges.iter().any(|(kk, _)| *kk == base + 1);
+            if got.is_some() || charged {
+                violations += 1;
+                if detail.is_empty() {
+                    detail = format!(
+                        "Cache, round {}: insert(k)={} while the processor was busy, buffer (capacity 2) filled, remove(k) and wait() returned: get(k) = {:?}, k still charged = {}",
+                        r, a, got, charged
+                    );
+                }
+            }
+            let _ = c.close();
+        }
+    }
+    LiveResult { scenario: name, rounds: done, violations, detail }
+}
